@@ -139,7 +139,9 @@ def run(chk, tier, seed, replay=None):
              '!^tests', '!tests$',
              # the spelling of a test id: "method (module.Class.method)"
              r'!_alpha\)$', r'TL1\)$', r'!TL1\.test_alpha', r'TU\.test_\w+\)$']
-    lpool = ['L1', 'L', 'Unit', '!L1', '!Unit', '', '.', 'zzz']
+    lpool = ['L1', 'L', 'Unit', '!L1', '!Unit', '', '.', 'zzz',
+             # a pattern that is a layer's full dotted name (still a pattern like any other)
+             'tests.L1', 'tests.L2', '!tests.L2']
     cases = []
     k = 0
     for key, pool in (('t', tpool), ('layer', lpool)):
